@@ -260,7 +260,8 @@ claim('C02',
 claim('C19',
       'TLC model checking of the ownership rules Heap.tla (NoSharing, Frozen; negative control with a dropped copy) + TLC '
       'trace validation (TraceHeap.tla) of random real histories with byte-level digests of all live objects before / after '
-      'every call, pairwise memory-sharing analysis, and in-place pokes of every fresh result',
+      'every call, pairwise memory-sharing analysis, and in-place pokes of every fresh result + replay of TLC-simulated '
+      'behaviours of Heap.tla on real MPS objects (live set, sharing relation and changed digests compared after every action)',
       'Every public operation used in the histories is catalogued as pure / fresh / in-place(target); after each call the '
       'set of objects whose SHA-256 digest changed must be within {target}, no two distinct objects may share a NumPy buffer, '
       'a container or a graph node / edge record, and after every fresh result each of its buffers is perturbed in place '
